@@ -251,9 +251,16 @@ class Interp:
         for e in self.keys:
             if e.eq(k):
                 return
+        depth = getattr(self, "_inst_depth", 0)
+        if depth >= 2:
+            return               # terms generated while instantiating on derived keys: not instantiation targets
         self.keys.append(k)
-        for f in self.pw:
-            self._assert(f(k))
+        self._inst_depth = depth + 1
+        try:
+            for f in list(self.pw):
+                self._assert(f(k))
+        finally:
+            self._inst_depth = depth
 
     def _assert(self, fml):
         if fml is True or fml is None:
@@ -274,9 +281,16 @@ class Interp:
         for e in lst:
             if e.eq(i):
                 return
+        depth = getattr(self, "_inst_depth", 0)
+        if depth >= 2:
+            return
         lst.append(i)
-        for f in self.__dict__.setdefault("pwi", []):
-            self._assert(f(i))
+        self._inst_depth = depth + 1
+        try:
+            for f in list(self.__dict__.setdefault("pwi", [])):
+                self._assert(f(i))
+        finally:
+            self._inst_depth = depth
 
     def idx(self, base):
         i = z3.Int(self.fresh_name(base))
@@ -291,14 +305,24 @@ class Interp:
     def assume_pwi(self, f):
         """assume forall i:Int. f(i); instantiated on every index term of the path"""
         self.__dict__.setdefault("pwi", []).append(f)
-        for i in list(self.__dict__.setdefault("idxs", [])):
-            self._assert(f(i))
+        depth = getattr(self, "_inst_depth", 0)
+        self._inst_depth = depth + 1
+        try:
+            for i in list(self.__dict__.setdefault("idxs", [])):
+                self._assert(f(i))
+        finally:
+            self._inst_depth = depth
 
     def assume_pw(self, f):
         """assume forall k. f(k)   (f: z3 key term -> formula); instantiated on all keys of the path"""
         self.pw.append(f)
-        for k in list(self.keys):
-            self._assert(f(k))
+        depth = getattr(self, "_inst_depth", 0)
+        self._inst_depth = depth + 1
+        try:
+            for k in list(self.keys):
+                self._assert(f(k))
+        finally:
+            self._inst_depth = depth
 
     def use_lemma(self, name, formula):
         """A context-free arithmetic lemma: `formula` must be valid on its own (checked in a fresh solver, no
@@ -617,6 +641,8 @@ class Interp:
             self.mset(o, k.t, v)
         elif isinstance(o, Obj) and o.kind == "rec" and "_items" in self.heap[o.oid]:
             self.setitem(self.heap[o.oid]["_items"], k, v)
+        elif hasattr(o, "py_setitem"):
+            o.py_setitem(self, k, v)
         elif isinstance(o, Obj) and o.kind == "seq":
             from . import models
             models.seq_setitem(self, o, k, v)
@@ -967,6 +993,10 @@ class Interp:
 
     def e_Dict(self, e):
         if e.keys:
+            if all(isinstance(k, ast.Constant) and isinstance(k.value, str) for k in e.keys):
+                for v in e.values:
+                    self.ev(v)
+                return Opaque("dict")          # a record-like dict with literal string keys (e.g. step's `info`)
             raise Unsupported("dict display with items")
         return self.new_map(lambda k: Fl(0), lambda k: FALSE, None, "dict")
 
@@ -1000,6 +1030,8 @@ class Interp:
             return models.call_method(self, r, f.name, args, kwargs)
         if isinstance(f, ClassRef):
             return models.construct(self, f.name, args, kwargs)
+        if isinstance(f, Obj) and f.kind == "rec" and resolve_method(f.cls, "__call__"):
+            return self.call_repo(f.cls, "__call__", f, args, kwargs)
         if isinstance(f, Builtin):
             return models.call_builtin(self, f.name, args, kwargs)
         raise Unsupported("call of %r" % (f,))
